@@ -499,6 +499,72 @@ def rule_l8(ctx, facts):
         ctx.fail_closed("L8: expected at least 10 value-slot accesses / found-node returns guarded by key comparisons, found %d" % n)
 
 
+def rule_l12(ctx, facts):
+    """the `next` pointer of a node that is being removed is left alone: lock-free readers (get, iterators) may be standing on that very
+    node and follow its `next` to reach the rest of the bin; only the predecessor's link (or the bin slot) is redirected.  Reported: a
+    store to Node.next through the same variable that is then retired, with no re-assignment of the variable in between."""
+    an = anchors(facts)
+    NEXT = ("node::Node", "next")
+    n = 0
+
+    def named_root(b, l, depth=0):
+        fl = flow(b)
+        seen = set()
+        while l is not None and l not in seen and depth < 40:
+            seen.add(l)
+            depth += 1
+            if b.local_name(l) and b.ty(l).get("base") == "reclaim::Shared" and b.ty(l).get("refs", 0) == 0:
+                return l          # the pointer variable the node was reached from (`n = p.deref()...` resolves to `p`)
+            srcs = fl.sources(l)
+            if len(srcs) != 1:
+                return None
+            kind, data, pt = srcs[0]
+            if kind == "copy":
+                l = data
+            elif kind in ("ref", "field"):
+                l = data["local"]
+            elif kind == "view":
+                l = data[1]
+            else:
+                return None
+        return None
+    for b in facts.bodies:
+        rets = []
+        for c in b.calls:
+            k = an.is_retire(c)
+            if k is None or b.is_cleanup(c.b) or k >= len(c.args) or op_root(c.args[k]) is None:
+                continue
+            targs = b.ty(op_root(c.args[k])).get("args", [""])
+            if not (targs and str(targs[-1]).startswith("node::BinEntry")):
+                continue
+            r = named_root(b, op_root(c.args[k]))
+            if r is not None:
+                rets.append((c, r))
+        if not rets:
+            continue
+        for c in b.calls:
+            if b.is_cleanup(c.b) or is_reclaim_atomic(c) not in ("store", "swap", "compare_exchange") or NEXT not in receiver_field(b, c, 0):
+                continue
+            recv = named_root(b, op_root(c.args[0])) if c.args and op_root(c.args[0]) is not None else None
+            if recv is None:
+                continue
+            n += 1
+            bad = None
+            for rc, rr in rets:
+                if rr != recv:
+                    continue
+                redefs = {d[0] for d in b.defs.get(recv, []) if d[1] in ("assign", "call")}
+                if rc.point in reach(b, after(b, c.point, label="ret"), avoid=redefs):
+                    bad = rc
+                    break
+            ctx.inst("L12", b, "store to the next pointer of `%s`" % b.local_name(recv), c.span, bad is None,
+                     "the node written to is not the one that is retired afterwards" if bad is None else
+                     "the next pointer of the node held in `%s` is overwritten at %s and the same node is then unlinked and retired at %s: a lock-free "
+                     "reader standing on it loses the rest of the bin and misses keys that were never removed" % (b.local_name(recv), c.span, bad.span))
+    if n < 3:
+        ctx.fail_closed("L12: expected at least 3 stores to Node.next through a named node variable (put append, unlinks in compute_if_present / replace_node), found %d" % n)
+
+
 def rule_l9(ctx, facts):
     """a bin is read at the index computed for that very table: between `T.bini(hash)` and `T.bin(i)` the table variable is not re-assigned
     (an index computed for an older table selects the wrong bin of a longer one)"""
@@ -643,5 +709,7 @@ def run(ctx, facts):
     ctx.rule("L7", "lock-free readers search a tree bin through the tree only under the read lock, else through the next-pointer list (rule D6)", floor=3)
     from .rules_c11 import rule_d6, rule_tree_write_lock
     rule_d6(ctx, facts, rule="L7")
+    ctx.rule("L12", "the next pointer of a node being removed is not written (readers standing on it still reach the rest of the bin)", floor=3)
+    rule_l12(ctx, facts)
     ctx.rule("L11", "the tree write lock is taken only from a lock word without writer and without readers", floor=2)
     rule_tree_write_lock(ctx, facts, rule="L11")
